@@ -7,3 +7,5 @@ mkdir -p bin evidence .work replays
 (cd engine && go build -o ../bin/symgo .)
 echo "symgo built: $(ls -la bin/symgo | awk '{print $5}') bytes"
 z3 --version
+# translator validation: interpreter vs native on concrete inputs (must agree)
+./selftest.py
